@@ -141,7 +141,11 @@ class order_after_showdown(Comps):
     def at_killing(s):
         return order_after_showdown.where_to(s) == 'hand_killing'
 
-    at_call = {Q + '_begin_dealing': ['at_dealing'], Q + '_begin_hand_killing': ['at_killing']}
+    @P('C07', 'everybody else mucked -> the lone survivor takes the pots')
+    def at_pushing(s):
+        return order_after_showdown.where_to(s) == 'chips_pushing'
+
+    at_call = {Q + '_begin_dealing': ['at_dealing'], Q + '_begin_hand_killing': ['at_killing'], Q + '_begin_chips_pushing': ['at_pushing']}
 
 
 # ---- progress: every operation strictly reduces what is left to do in its phase ----------------------------------------------------
